@@ -61,8 +61,21 @@ impl de::Error for Error {
 // Serializer
 // ------------------------------------------------------------------------------------------
 
+/// Serialise into a value tree.  Panic-safe: a value whose own Serialize impl panics (a
+/// broken library invariant) yields an Error instead of taking the monitor down.
 pub fn to_v<T: Serialize + ?Sized>(t: &T) -> Result<V, Error> {
-    t.serialize(Ser)
+    match crate::mon::guard(|| t.serialize(Ser)) {
+        Ok(r) => r,
+        Err(p) => Err(Error(format!("panic while serialising at {}: {}", p.site, p.msg))),
+    }
+}
+
+/// Debug rendering, panic-safe for the same reason.
+pub fn debug_of<T: fmt::Debug + ?Sized>(t: &T) -> String {
+    match crate::mon::guard(|| format!("{:?}", t)) {
+        Ok(s) => s,
+        Err(p) => format!("<Debug panicked at {}: {}>", p.site, p.msg),
+    }
 }
 
 struct Ser;
